@@ -182,6 +182,8 @@ class Prop(common.PropertyCheck):
                 center = case['center'] if (not case['log'] or case.get('lograw')) else [math.log10(abs(c) + 2) for c in case['center']]
                 a, b = (case['a'], case['b']) if (not case['log'] or case.get('lograw')) else (case['a'] / 100 + 0.1, case['b'] / 100 + 0.1)
                 try:
+                    # an unrelated earlier call in the same process (results must not depend on the call history)
+                    FlowCal.gate.ellipse(np.array([[1., 2.], [30., 40.]]), [0, 1], [3., 4.], 7., 5., 0.3, full_output=True)
                     full = FlowCal.gate.ellipse(dd, ch, center, a, b, case['theta'], log=case['log'], full_output=True)
                     short = FlowCal.gate.ellipse(dd, ch, center, a, b, case['theta'], log=case['log'])
                 except Exception as e:
@@ -263,6 +265,8 @@ class Prop(common.PropertyCheck):
             if p['ncontour'] != 1 or len(p['contour']) != 100:
                 return 'ellipse contour has %d pieces / %d points' % (p['ncontour'], len(p['contour']))
             for xb, yb in p['contour']:
+                if not all(math.isfinite(struct.unpack('<d', struct.pack('<Q', v))[0]) for v in (xb, yb)):
+                    return 'contour has a non-finite point (a=%s b=%s theta=%s log=%s)' % (p['a'], p['b'], p['theta'], case['log'])
                 f = form(xb, yb)
                 if abs(f - 1) > Fraction(1, 10 ** 6):
                     return 'contour point is not on the ellipse a=%s b=%s theta=%s (form=%.9f)' % (p['a'], p['b'], p['theta'], float(f))
